@@ -906,6 +906,7 @@ func isUnknownSpec(a predOutcome) predOutcome {
 
 //@ func compareDatetime
 //@ props C17 C12
+//@ ensures [C05 C08 C17] class: r1 != nil ==> (errIs(r1, ErrExecution) || errIs(r1, ErrInvalid)) && !errIs(r1, ErrVerbose)
 //@ ensures [C17] date: is[*types.Date](val1) ==> ncalls(compareDate) == 1 && r0 == callret[int](compareDate, 0) && r1 == callret[error](compareDate, 1) && callarg[any](compareDate, "val2") == val2 && callarg[bool](compareDate, "useTZ") == useTZ
 //@ ensures [C17] time: is[*types.Time](val1) ==> ncalls(compareTime) == 1 && r0 == callret[int](compareTime, 0) && r1 == callret[error](compareTime, 1) && callarg[any](compareTime, "val2") == val2 && callarg[bool](compareTime, "useTZ") == useTZ
 //@ ensures [C17] timetz: is[*types.TimeTZ](val1) ==> ncalls(compareTimeTZ) == 1 && r0 == callret[int](compareTimeTZ, 0) && r1 == callret[error](compareTimeTZ, 1) && callarg[any](compareTimeTZ, "val2") == val2 && callarg[bool](compareTimeTZ, "useTZ") == useTZ
@@ -919,6 +920,7 @@ func isUnknownSpec(a predOutcome) predOutcome {
 
 //@ func compareDate
 //@ props C17
+//@ ensures [C05 C08 C17] class: r1 != nil ==> (errIs(r1, ErrExecution) || errIs(r1, ErrInvalid)) && !errIs(r1, ErrVerbose)
 //@ ensures [C17] same: is[*types.Date](val2) ==> r1 == nil && r0 == val1.Compare(as[*types.Date](val2).Time)
 //@ ensures [C17] timestamp: is[*types.Timestamp](val2) ==> r1 == nil && r0 == val1.Compare(as[*types.Timestamp](val2).Time)
 //@ ensures [C17] incomparable: is[*types.Time](val2) || is[*types.TimeTZ](val2) ==> r0 == -2 && r1 == nil
@@ -927,6 +929,7 @@ func isUnknownSpec(a predOutcome) predOutcome {
 
 //@ func compareTime
 //@ props C17
+//@ ensures [C05 C08 C17] class: r1 != nil ==> (errIs(r1, ErrExecution) || errIs(r1, ErrInvalid)) && !errIs(r1, ErrVerbose)
 //@ ensures [C17] same: is[*types.Time](val2) ==> r1 == nil && r0 == val1.Compare(as[*types.Time](val2).Time)
 //@ ensures [C17] incomparable: is[*types.Date](val2) || is[*types.Timestamp](val2) || is[*types.TimestampTZ](val2) ==> r0 == -2 && r1 == nil
 //@ ensures [C17] tz-required: is[*types.TimeTZ](val2) && !useTZ ==> r1 != nil && errIs(r1, ErrExecution) && !errIs(r1, ErrVerbose)
@@ -934,6 +937,7 @@ func isUnknownSpec(a predOutcome) predOutcome {
 
 //@ func compareTimeTZ
 //@ props C17
+//@ ensures [C05 C08 C17] class: r1 != nil ==> (errIs(r1, ErrExecution) || errIs(r1, ErrInvalid)) && !errIs(r1, ErrVerbose)
 //@ ensures [C17] same: is[*types.TimeTZ](val2) ==> r1 == nil && r0 == val1.Compare(as[*types.TimeTZ](val2).Time)
 //@ ensures [C17] incomparable: is[*types.Date](val2) || is[*types.Timestamp](val2) || is[*types.TimestampTZ](val2) ==> r0 == -2 && r1 == nil
 //@ ensures [C17] tz-required: is[*types.Time](val2) && !useTZ ==> r1 != nil && errIs(r1, ErrExecution) && !errIs(r1, ErrVerbose)
@@ -941,6 +945,7 @@ func isUnknownSpec(a predOutcome) predOutcome {
 
 //@ func compareTimestamp
 //@ props C17
+//@ ensures [C05 C08 C17] class: r1 != nil ==> (errIs(r1, ErrExecution) || errIs(r1, ErrInvalid)) && !errIs(r1, ErrVerbose)
 //@ ensures [C17] same: is[*types.Timestamp](val2) ==> r1 == nil && r0 == val1.Compare(as[*types.Timestamp](val2).Time)
 //@ ensures [C17] date: is[*types.Date](val2) ==> r1 == nil && r0 == val1.Compare(as[*types.Date](val2).Time)
 //@ ensures [C17] incomparable: is[*types.Time](val2) || is[*types.TimeTZ](val2) ==> r0 == -2 && r1 == nil
@@ -949,6 +954,7 @@ func isUnknownSpec(a predOutcome) predOutcome {
 
 //@ func compareTimestampTZ
 //@ props C17
+//@ ensures [C05 C08 C17] class: r1 != nil ==> (errIs(r1, ErrExecution) || errIs(r1, ErrInvalid)) && !errIs(r1, ErrVerbose)
 //@ ensures [C17] same: is[*types.TimestampTZ](val2) ==> r1 == nil && r0 == val1.Compare(as[*types.TimestampTZ](val2).Time)
 //@ ensures [C17] incomparable: is[*types.Time](val2) || is[*types.TimeTZ](val2) ==> r0 == -2 && r1 == nil
 //@ ensures [C17] tz-required: (is[*types.Date](val2) || is[*types.Timestamp](val2)) && !useTZ ==> r1 != nil && errIs(r1, ErrExecution) && !errIs(r1, ErrVerbose)
